@@ -89,3 +89,21 @@ e1("C08", "Translation validation on object trees: depth 3, two sub-objects of o
           "reference names variables by attribute path and the mirror's variables are renamed through the model-field->path map, so aliasing between "
           "structurally identical sub-objects breaks the equivalence z3 decides; sub-object blocks are present iff the sub-object is random in the call.",
    "translation validation: z3 equivalence with path-named reference variables", "DESIGN.md section 6 C08")
+
+e1("C14", "For every enumerated program and call, the value domain the call really handed to the swizzler (or drew an unconstrained field "
+          "from) is read from the real run and z3 decides over ALL random-field values that no solution of the reference constraints has a field "
+          "value outside that field's domain (Ref and x_f not in D_f is unsat), and that the asserted hard formula excludes no reference solution. "
+          "Programs cover every relational operator against non-random fields/expressions that wrap, go negative or mix signedness, field-vs-field "
+          "chains, overlapping/unordered in-ranges, disabled blocks, enums, and previous values left in the random fields.",
+   "translation validation of the inferred bound map: z3 unsatisfiability of (reference AND value outside the inferred range)", "DESIGN.md section 6 C14")
+e1("C16", "Fault enumeration: user exceptions at every statement position of a constraint body during construction (also nested, in a dynamic "
+          "block, in __init__), at every position of a randomize_with body, in pre_/post_randomize (object and sub-object), and unsatisfiable calls, "
+          "each followed by further use. After every operation the shared construction stacks and the object models are inspected (idle, no temporary "
+          "rewrite, no solver node, no field left marked random) and every later call is decided by z3 for all random-field values against the "
+          "reference (equivalent formula, failure iff unsatisfiable), i.e. it behaves as if the fault never happened.",
+   "enumerated fault points; state inspection after each; every later call decided by z3 equivalence with the reference", "DESIGN.md section 6 C16", cat="fault_enumeration")
+e1("C17", "Object trees whose classes define pre_/post_randomize are randomized through all call kinds; the callbacks log object, phase, visible "
+          "values and the number of solver-trace events so far. Exactly-once per phase iff the object and all its ancestors are random in the call, "
+          "pre before any solver activity, post after the last solver event with final values - observed on the real run; and z3 proves for all "
+          "random-field values that the solver saw the values pre_randomize assigned (equivalence with the reference built from them).",
+   "event log vs solver-trace positions (observation) + z3 equivalence with the reference using pre_randomize's assignments", "DESIGN.md section 6 C17")
